@@ -520,7 +520,7 @@ func init() {
 		Level: "exploration",
 		Rule: "round-trip monitor: the harness owns the writer (Go value -> BCL text) and the matching rule (tag first, else equal ignoring case and underscores; type name matched the same way). Struct types are built with reflect.StructOf (1-12 fields of int/float64/string/bool, nested anonymous structs to depth 4, tags on a random subset, a Name field at any index or absent) or taken from a zoo of named types (named nested type included); " +
 			"values: zero, extremes (MinInt64, +-MaxFloat64, denormals, -0.0), random finite floats, strings needing every escape form; key spellings: snake, joined, upper, Go name, extra/leading/trailing underscores, lower camel; field order shuffled; struct binding with every selector and slice binding (all/first/last) into a slice pre-filled with junk. Required: nil error and bit-exact deep equality. " +
-			"distinct = hash(text, type); non-trivial = at least one field crossed the reflection layer",
+			"distinct = hash(text, type); non-trivial = at least one field crossed the reflection layer Also: struct chains nested 1..16 deep; tags equal to a sibling field's Go name (the tag wins); the source buffer is overwritten right after Unmarshal returns.",
 		Assumptions:   []string{"field-name sets that are ambiguous under the rule (two fields equal after folding, a tag equal to another field's folded name) are not generated"},
 		MinNontrivial: 1000,
 		Run: func(c *core.Ctx) {
